@@ -12,7 +12,8 @@ HIST = ["dropped_length", "dropped_type", "mac1_fails", "static_does_not_open", 
         "replay_ts_not_newer", "flood", "initiation_accepted", "response_unaddressed", "response_wrong_state",
         "transcript_fails", "response_accepted", "tun_initiation", "tun_spacing_blocks", "tun_transport", "shift_hook",
         "restart", "ambiguous_flood_steps", "tun_unknown_peer", "valid_mac1_under_load_cookie_reply",
-        "under_load_toggles", "gate_or_mac1_fails_under_load", "concurrent_initiation_burst_one_leaves", "burst_blocked_by_spacing"]
+        "under_load_toggles", "gate_or_mac1_fails_under_load", "concurrent_initiation_burst_one_leaves", "burst_blocked_by_spacing",
+        "peer_removed_with_timer_callback_in_flight"]
 
 
 def executed(case):
@@ -44,7 +45,7 @@ class Prop:
             "timestamps from several addresses, response to a pre-restart initiation; responses whose receiver is replaced (MAC1 recomputed) by every "
             "index the device ever issued for the peer (session indices in next/current/previous, deleted ones) while a new initiation is outstanding; "
             "valid initiations with crafted increasing timestamps fired back to back (judged against the 1/50 s of the property text with the "
-            "conservative bound settle-time(second) - inject-time(first) < 20 ms), also with a Down/Up right after the answered one; 4..12 goroutines calling SendHandshakeInitiation at once (48+ rounds): exactly one initiation may leave; device-emitted timestamps across a restart only in "
+            "conservative bound settle-time(second) - inject-time(first) < 20 ms), also with a Down/Up right after the answered one; RemovePeer while the peer's retransmit-handshake timer callback is in flight (parked on the static identity): afterwards the response to the initiation that callback sent, replays, session-index responses and initiations of the removed peer must be inert; 4..12 goroutines calling SendHandshakeInitiation at once (48+ rounds): exactly one initiation may leave; device-emitted timestamps across a restart only in "
             "the dedicated F7 scenario; non-trivial = scenario with at least one accepted and one inert handshake message; distinct by content hash")
     assumptions = ["messages whose MAC1 does not verify (or that fail the size/type gate) must be silent and inert under load too; for messages with a "
                    "valid MAC1 the no-reply clauses are for a device not under load (under load the cookie reply is C10's business and is only mirrored, not judged)",
